@@ -550,7 +550,7 @@ func filterFacts(repo string) (string, error) {
 	case len(callback) == 5 && callback[0] == tickInCall && callback[4] == kmerLoop && rhs["Filter.tick"] == tickFunc &&
 		has(filterBody, tickAtEnd):
 		// tick(Qlen-k+1) must come after the scan and before the final tubeEnd
-		at := func(want string) int {
+		at := func(want string) int { // (local to this case)
 			for i, x := range filterBody {
 				if x == want {
 					return i
@@ -571,6 +571,86 @@ func filterFacts(repo string) (string, error) {
 	default:
 		return "", fmt.Errorf("filter.go: the ticker of Filter is not a modelled variant (callback %q, tick %q)", callback, rhs["Filter.tick"])
 	}
+	// usage histories: what a *Filter carries from one call of Filter to the next. Every
+	// assignment to a field of f in the file, in source order (New builds f by a composite literal).
+	var perCall, otherWrites []string
+	for _, d := range file.Decls {
+		fd, ok := d.(*ast.FuncDecl)
+		if !ok || fd.Body == nil {
+			continue
+		}
+		head := map[ast.Stmt]bool{}
+		if fd.Name.Name == "Filter" {
+			for _, st := range fd.Body.List { // the leading run of `f.<field> = …` statements
+				as, ok := st.(*ast.AssignStmt)
+				if !ok || as.Tok != token.ASSIGN || len(as.Lhs) != 1 || !strings.HasPrefix(compact(as.Lhs[0]), "f.") {
+					break
+				}
+				head[st] = true
+				perCall = append(perCall, strings.TrimPrefix(compact(as.Lhs[0]), "f."))
+			}
+		}
+		ast.Inspect(fd.Body, func(n ast.Node) bool {
+			switch x := n.(type) {
+			case *ast.AssignStmt:
+				if head[x] {
+					return true
+				}
+				for _, l := range x.Lhs {
+					if sel, ok := l.(*ast.SelectorExpr); ok && compact(sel.X) == "f" {
+						otherWrites = append(otherWrites, sel.Sel.Name)
+					}
+				}
+			case *ast.IncDecStmt:
+				if sel, ok := x.X.(*ast.SelectorExpr); ok && compact(sel.X) == "f" {
+					otherWrites = append(otherWrites, sel.Sel.Name)
+				}
+			}
+			return true
+		})
+	}
+	at := func(want string) int {
+		for i, x := range filterBody {
+			if x == want {
+				return i
+			}
+		}
+		return -1
+	}
+	pre := func(prefix string) int {
+		for i, x := range filterBody {
+			if strings.HasPrefix(x, prefix) {
+				return i
+			}
+		}
+		return -1
+	}
+	const (
+		makeTubes   = "f.tubes=make([]tubeState,maxActiveTubes)"
+		keepTubes   = "iflen(f.tubes)!=maxActiveTubes{f.tubes=make([]tubeState,maxActiveTubes)}"
+		resetTubes  = "f.tubes=nil"
+		scanPrefix  = "err=f.ki.ForEachKmerOf(query,0,query.Len(),func("
+		flushPrefix = "fortubeIndex:=tubeFrom;tubeIndex<=tubeTo;tubeIndex++{"
+		lastReturn  = "returnf.morass.Finalise()"
+	)
+	var remake bool
+	switch {
+	case at(makeTubes) > pre("maxActiveTubes:=") && pre("maxActiveTubes:=") >= 0 && at(makeTubes) < pre(scanPrefix) &&
+		pre(flushPrefix) >= 0 && at(resetTubes) > pre(flushPrefix) && at(resetTubes) < at(lastReturn) && at(keepTubes) < 0:
+		remake = true
+	case at(keepTubes) > pre("maxActiveTubes:=") && pre("maxActiveTubes:=") >= 0 && at(keepTubes) < pre(scanPrefix) &&
+		at(makeTubes) < 0 && at(resetTubes) < 0:
+		remake = false
+	default:
+		return "", fmt.Errorf("filter.go: how Filter allocates and releases f.tubes is not a modelled variant")
+	}
+	leanList := func(xs []string) string {
+		q := make([]string, len(xs))
+		for i, x := range xs {
+			q[i] = strconv.Quote(x)
+		}
+		return "[" + strings.Join(q, ", ") + "]"
+	}
 	// the remaining expressions the model transcribes must be the ones it was written from
 	for key, want := range map[string]string{
 		"Filter.tubeWidth":      "f.tubeOffset+f.maxError",
@@ -589,8 +669,12 @@ func filterFacts(repo string) (string, error) {
 	}
 	return fmt.Sprintf("import Biogo.Model.Filter\nnamespace Biogo.Generated.FilterFacts\n\n"+
 		"/-- the retirement rule of align/pals/filter/filter.go as parsed from the source -/\n"+
-		"def rule : Biogo.Filter.Rule := { retireSubMaxError := %v, flushFromLastTick := %v, tickByPosition := %v }\n\n"+
-		"end Biogo.Generated.FilterFacts\n", retire, flush, byPosition), nil
+		"def rule : Biogo.Filter.Rule := { retireSubMaxError := %v, flushFromLastTick := %v, tickByPosition := %v, remakeTubes := %v }\n\n"+
+		"/-- the fields of a Filter assigned at the head of (*Filter).Filter, in order -/\n"+
+		"def perCallFields : List String := %s\n\n"+
+		"/-- every other assignment to a field of a Filter in filter.go (New builds it by a composite literal), in source order -/\n"+
+		"def otherFieldWrites : List String := %s\n\n"+
+		"end Biogo.Generated.FilterFacts\n", retire, flush, byPosition, remake, leanList(perCall), leanList(otherWrites)), nil
 }
 
 func init() {
